@@ -226,6 +226,74 @@ func checkC11(c *Ctx) {
 		}
 		c.check(okO, "C11-ORD", n, "order restored from the key list", f.Pos(), "SetHashKeyOrder is applied when a key list was found", "field order is not restored from zKeyOrder")
 	}
+	// ---- C11-ALL: the loop over the entries of a decoded map visits every entry
+	for _, n := range []string{"decodeGoToSexpHelper", "fillHashHelper"} {
+		f := c.fn(n)
+		if f == nil {
+			continue
+		}
+		found := 0
+		seenLoop := map[*ssa.BasicBlock]bool{}
+		eachInstr(f, func(b *ssa.BasicBlock, i int, in ssa.Instruction) {
+			bo, ok := in.(*ssa.BinOp)
+			if !ok || bo.Op != token.EQL {
+				return
+			}
+			k, ok := bo.Y.(*ssa.Const)
+			if !ok || k.Value == nil || k.Value.Kind() != constant.String || constant.StringVal(k.Value) != "zKeyOrder" {
+				return
+			}
+			loop := loopOf(b)
+			if loop == nil {
+				return
+			}
+			// the loop header: the loop block that dominates all others
+			var header *ssa.BasicBlock
+			for x := range loop {
+				all := true
+				for y := range loop {
+					if !x.Dominates(y) && x != y {
+						all = false
+					}
+				}
+				if all {
+					header = x
+				}
+			}
+			if header == nil || seenLoop[header] {
+				return
+			}
+			seenLoop[header] = true
+			found++
+			early := token.NoPos
+			okLoop := true
+			for x := range loop {
+				for _, s := range x.Succs {
+					if loop[s] || x == header {
+						continue
+					}
+					// leaving from inside the body: allowed only towards a return / panic
+					last := s.Instrs[len(s.Instrs)-1]
+					switch last.(type) {
+					case *ssa.Return, *ssa.Panic:
+						continue
+					}
+					okLoop = false
+					early = blkPos(x)
+				}
+			}
+			pos := bo.Pos()
+			if !okLoop && early.IsValid() {
+				pos = early
+			}
+			c.check(okLoop, "C11-ALL", n, "every entry of a decoded map is visited", pos,
+				"the loop over the sorted entries is left only when the entries are exhausted (or with an error)",
+				"the loop over the entries of a decoded map can be left early: the entries that sort after the point of exit (keys above `zKeyOrder` in byte order, e.g. zip, zone, non-ASCII names) are silently dropped")
+		})
+		if found == 0 {
+			c.undecided("C11-ALL", n, "every entry of a decoded map is visited", f.Pos(), "the loop that recognises the reserved key zKeyOrder was not found")
+		}
+	}
 	if sorter != nil {
 		sorts := false
 		eachInstr(sorter, func(b *ssa.BasicBlock, i int, in ssa.Instruction) {
